@@ -54,16 +54,10 @@ def timeVarying (j : Nat) (ds : List CRec) : Bool :=
 /-- `list_time_varying_covariates` -/
 def listTimeVarying (cols : List Nat) (ds : List CRec) : List Nat := cols.filter (fun j => timeVarying j ds)
 
-/-- ascending insertion (ids of `groupby`) -/
-def insertAsc (i : Int) : List Int → List Int
-  | [] => [i]
-  | x :: xs => if i ≤ x then i :: x :: xs else x :: insertAsc i xs
-def sortAsc (l : List Int) : List Int := l.foldr insertAsc []
-
-/-- `get_observations(model).groupby(id).count()` on the observation records `(id, DV)`:
-    ascending ids of the observation records, number of NON-MISSING DV values each -/
+/-- `get_observations(model).groupby(id).size()` (7f08375) on the observation records `(id, DV)`:
+    ascending ids of the observation records, number of observation RECORDS each — a missing DV counts -/
 def nObsPerCount (obs : List (Int × Option Rat)) : List (Int × Nat) :=
-  let ids := sortAsc ((baselines (obs.map (fun p => ⟨0, p.1, []⟩))).map (·.id))
-  ids.map (fun i => (i, (obs.filter (fun p => p.1 == i && p.2.isSome)).length))
+  let ids := ((firstsAux id [] (obs.map (·.1)))).mergeSort (fun a b => decide (a ≤ b))
+  ids.map (fun i => (i, (obs.filter (fun p => p.1 == i)).length))
 
 end Pharmpy.C14
